@@ -1,6 +1,534 @@
-(** C02 — placeholder until Proofs/Kleene_proofs.v is in. *)
-From Coq Require Import List.
-Require Import Fggs.Model.Semiring Fggs.Model.SumProduct Fggs.Model.Kleene.
-Theorem C02_Zk_unfold : forall R (o : sr_ops R) G w k, Zk o G w (S k) = step o G w (Zk o G w k).
-Proof. reflexivity. Qed.
-Print Assumptions C02_Zk_unfold.
+(** C02 — the sum-product of a recursive FGG is the least fixed point, or says otherwise.
+    Only property theorems live here, each closed by [exact] and followed by Print Assumptions.
+    Generic over a semiring [o : sr_ops R] with the laws [sr_ring o] (commutative semiring) and
+    [sr_ordered o] (monotone operations, zero least) as premises; the law records of the three
+    carriers are proved in Proofs/SemiringLaws.v (C08).  [Zk o G w k] is the k-th Kleene iterate
+    of the grammar's equations [step o G w] from zero (= the sum of the weights of the
+    derivation trees of depth <= k: Proofs/SP_trees.v). *)
+From Coq Require Import QArith List Arith Bool PeanoNat.
+Import ListNotations.
+Require Import Fggs.Model.SCC Fggs.Model.SumProduct Fggs.Model.SumProductCheck
+               Fggs.Model.EReal Fggs.Model.Trop Fggs.Model.Kleene.
+Require Import Fggs.Proofs.SP_mono Fggs.Proofs.Kleene_proofs Fggs.Proofs.Kleene_control Fggs.Proofs.Kleene_linear
+               Fggs.Proofs.Kleene_fixpoint Fggs.Proofs.Kleene_check Fggs.Proofs.Kleene_scc.
+Require Import Fggs.Model.Semiring.
+Local Open Scope nat_scope.
+
+(** * 1. monotonicity *)
+Theorem C02_sumS_mono :
+  forall R (o : sr_ops R), sr_ordered o ->
+  forall A (l : list A) (f g : A -> R),
+    (forall a, In a l -> le o (f a) (g a)) -> le o (sumS o l f) (sumS o l g).
+Proof. exact (fun R o Ho A => @sumS_mono R o Ho A). Qed.
+Print Assumptions C02_sumS_mono.
+
+Theorem C02_prodS_mono :
+  forall R (o : sr_ops R), sr_ring o -> sr_ordered o ->
+  forall A (l : list A) (f g : A -> R),
+    (forall a, In a l -> le o (f a) (g a)) -> le o (prodS o l f) (prodS o l g).
+Proof. exact (fun R o Hr Ho A => @prodS_mono R o Hr Ho A). Qed.
+Print Assumptions C02_prodS_mono.
+
+Theorem C02_rule_val_mono :
+  forall R (o : sr_ops R), sr_ring o -> sr_ordered o ->
+  forall G (e1 e2 : env (R:=R)) r xi,
+    (forall X xj, le o (e1 X xj) (e2 X xj)) -> le o (rule_val o G e1 r xi) (rule_val o G e2 r xi).
+Proof. exact (@rule_val_mono). Qed.
+Print Assumptions C02_rule_val_mono.
+
+(** the equations are monotone in the environment, pointwise on every label and index tuple *)
+Theorem C02_step_mono :
+  forall R (o : sr_ops R), sr_ring o -> sr_ordered o ->
+  forall G w (x y : env (R:=R)),
+    (forall X xi, le o (x X xi) (y X xi)) -> forall X xi, le o (step o G w x X xi) (step o G w y X xi).
+Proof. exact (@step_mono). Qed.
+Print Assumptions C02_step_mono.
+
+(** a well-formed rule reads its sub-environment only at labels of the grammar and at in-range
+    index tuples ... *)
+Theorem C02_rule_queries_in_range :
+  forall G r ed a,
+    wf_rule G r = true -> In ed (r_edges r) -> In a (all_assts (node_sizes G r)) ->
+    fst ed < length (g_labels G) /\ In (sel a (snd ed)) (all_assts (lshape G (fst ed))).
+Proof.
+  exact (fun G r ed a Hwf Hed Ha =>
+           conj (proj1 (wf_rule_edge G r ed Hwf Hed)) (wf_rule_query_in_range G r ed a Hwf Hed Ha)).
+Qed.
+Print Assumptions C02_rule_queries_in_range.
+
+(** ... so for a well-formed grammar it is enough to compare the environments on the
+    nonterminals at in-range tuples *)
+Theorem C02_step_mono_on_range :
+  forall R (o : sr_ops R), sr_ring o -> sr_ordered o ->
+  forall G w (x y : env (R:=R)),
+    wf_grammar G = true ->
+    (forall X xi, In X (nonterminals G) -> In xi (all_assts (lshape G X)) -> le o (x X xi) (y X xi)) ->
+    forall X xi, le o (step o G w x X xi) (step o G w y X xi).
+Proof. exact (@step_mono_on). Qed.
+Print Assumptions C02_step_mono_on_range.
+
+(** the Kleene iterates form an increasing chain (uses zero_le) *)
+Theorem C02_Zk_chain :
+  forall R (o : sr_ops R), sr_ring o -> sr_ordered o ->
+  forall G w k X xi, le o (Zk o G w k X xi) (Zk o G w (S k) X xi).
+Proof. exact (@Zk_chain). Qed.
+Print Assumptions C02_Zk_chain.
+
+(** * 2. Park: every pre-fixed point bounds every Kleene iterate *)
+Theorem C02_park :
+  forall R (o : sr_ops R), sr_ring o -> sr_ordered o ->
+  forall G w (u : env (R:=R)),
+    (forall X xi, le o (step o G w u X xi) (u X xi)) ->
+    forall k X xi, le o (Zk o G w k X xi) (u X xi).
+Proof. exact (@park). Qed.
+Print Assumptions C02_park.
+
+Theorem C02_park_on_range :
+  forall R (o : sr_ops R), sr_ring o -> sr_ordered o ->
+  forall G w (u : env (R:=R)),
+    wf_grammar G = true ->
+    (forall X xi, In X (nonterminals G) -> In xi (all_assts (lshape G X)) -> le o (step o G w u X xi) (u X xi)) ->
+    forall k X xi, In X (nonterminals G) -> In xi (all_assts (lshape G X)) -> le o (Zk o G w k X xi) (u X xi).
+Proof. exact (@park_on). Qed.
+Print Assumptions C02_park_on_range.
+
+(** tables: reading back a tabulated function *)
+Theorem C02_tab_get_tabulate :
+  forall R (o : sr_ops R) shape (f : list nat -> R) xi,
+    In xi (all_assts shape) -> tab_get o (tabulate shape f) xi = f xi.
+Proof. exact (@tab_get_tabulate). Qed.
+Print Assumptions C02_tab_get_tabulate.
+
+(** Kleene iteration on tables with every cell rounded down stays below the exact iterates
+    (at every label and tuple: out-of-range reads of a table give zero) *)
+Theorem C02_rounded_below_exact :
+  forall R (o : sr_ops R), sr_ring o -> sr_ordered o ->
+  forall rd : R -> R, (forall x, le o (rd x) x) ->
+  forall G w k X xi, le o (env_of o (Ktab o rd G w k) X xi) (Zk o G w k X xi).
+Proof. exact (@Ktab_below_Zk). Qed.
+Print Assumptions C02_rounded_below_exact.
+
+(** without rounding the tables ARE the iterates, on the range *)
+Theorem C02_unrounded_exact :
+  forall R (o : sr_ops R) G w k, wf_grammar G = true ->
+  forall X xi, In X (nonterminals G) -> In xi (all_assts (lshape G X)) ->
+    env_of o (Ktab o (fun x => x) G w k) X xi = Zk o G w k X xi.
+Proof. exact (@Ktab_exact). Qed.
+Print Assumptions C02_unrounded_exact.
+
+(** * 3. certified enclosures *)
+(** [enclosure ... = Some (lo, u)]: u is above every Kleene iterate (so above their limit, the
+    least fixed point); lo is the rounded iterate number 4 j (j <= K rounds) and below the exact
+    one (so below the limit); lo is below every pre-fixed point; lo <= u; u is a pre-fixed point *)
+Theorem C02_enclosure_sound :
+  forall R (o : sr_ops R), sr_ring o -> sr_ordered o ->
+  forall (rd infl : R -> R) (leb : R -> R -> bool),
+    (forall x, le o (rd x) x) -> (forall x y, leb x y = true -> le o x y) ->
+  forall G w K lo u,
+    wf_grammar G = true ->
+    enclosure o rd infl leb G w K = Some (lo, u) ->
+    (forall k X xi, In X (nonterminals G) -> In xi (all_assts (lshape G X)) ->
+                    le o (Zk o G w k X xi) (env_of o u X xi))
+    /\ (exists j, j <= K /\ lo = Ktab o rd G w (4 * j)
+                  /\ forall X xi, In X (nonterminals G) -> In xi (all_assts (lshape G X)) ->
+                                  le o (env_of o lo X xi) (Zk o G w (4 * j) X xi))
+    /\ (forall v : env (R:=R),
+          (forall X xi, In X (nonterminals G) -> In xi (all_assts (lshape G X)) -> le o (step o G w v X xi) (v X xi)) ->
+          forall X xi, In X (nonterminals G) -> In xi (all_assts (lshape G X)) -> le o (env_of o lo X xi) (v X xi))
+    /\ (forall X xi, In X (nonterminals G) -> In xi (all_assts (lshape G X)) ->
+                     le o (env_of o lo X xi) (env_of o u X xi))
+    /\ (forall X xi, In X (nonterminals G) -> In xi (all_assts (lshape G X)) ->
+                     le o (step o G w (env_of o u) X xi) (env_of o u X xi)).
+Proof. exact (@enclosure_sound). Qed.
+Print Assumptions C02_enclosure_sound.
+
+(** no rounding, no inflation: the enclosure is the least fixed point itself, reached after
+    4 j Kleene steps *)
+Theorem C02_enclosure_exact :
+  forall R (o : sr_ops R), sr_ring o -> sr_ordered o ->
+  forall leb : R -> R -> bool, (forall x y, leb x y = true -> le o x y) ->
+  forall G w K lo u,
+    wf_grammar G = true ->
+    enclosure o (fun x => x) (fun x => x) leb G w K = Some (lo, u) ->
+    u = lo
+    /\ (forall X xi, In X (nonterminals G) -> In xi (all_assts (lshape G X)) ->
+                     step o G w (env_of o lo) X xi = env_of o lo X xi)
+    /\ (forall v : env (R:=R),
+          (forall X xi, In X (nonterminals G) -> In xi (all_assts (lshape G X)) -> le o (step o G w v X xi) (v X xi)) ->
+          forall X xi, In X (nonterminals G) -> In xi (all_assts (lshape G X)) -> le o (env_of o lo X xi) (v X xi))
+    /\ (forall k X xi, In X (nonterminals G) -> In xi (all_assts (lshape G X)) ->
+                       le o (Zk o G w k X xi) (env_of o lo X xi))
+    /\ (exists j, j <= K /\ forall X xi, In X (nonterminals G) -> In xi (all_assts (lshape G X)) ->
+                                         env_of o lo X xi = Zk o G w (4 * j) X xi).
+Proof. exact (@enclosure_exact). Qed.
+Print Assumptions C02_enclosure_exact.
+
+(** Bool (the instance used by [fp_check_bool]); no premises *)
+Theorem C02_bool_exact :
+  forall G w K lo u,
+    wf_grammar G = true ->
+    enclosure bool_ops (fun x => x) (fun x => x) (fun a b : bool => implb a b) G w K = Some (lo, u) ->
+    u = lo
+    /\ (forall X xi, In X (nonterminals G) -> In xi (all_assts (lshape G X)) ->
+                     step bool_ops G w (env_of bool_ops lo) X xi = env_of bool_ops lo X xi)
+    /\ (forall v : env (R:=bool),
+          (forall X xi, In X (nonterminals G) -> In xi (all_assts (lshape G X)) ->
+                        step bool_ops G w v X xi = true -> v X xi = true) ->
+          forall X xi, In X (nonterminals G) -> In xi (all_assts (lshape G X)) ->
+                       env_of bool_ops lo X xi = true -> v X xi = true)
+    /\ (forall k X xi, In X (nonterminals G) -> In xi (all_assts (lshape G X)) ->
+                       Zk bool_ops G w k X xi = true -> env_of bool_ops lo X xi = true)
+    /\ (exists j, j <= K /\ forall X xi, In X (nonterminals G) -> In xi (all_assts (lshape G X)) ->
+                                         env_of bool_ops lo X xi = Zk bool_ops G w (4 * j) X xi).
+Proof. exact enclosure_bool_exact. Qed.
+Print Assumptions C02_bool_exact.
+
+(** Viterbi (the instance used by [fp_check_trop]) *)
+Theorem C02_trop_exact :
+  sr_ring trop_ops -> sr_ordered trop_ops ->
+  forall G w K lo u,
+    wf_grammar G = true ->
+    enclosure trop_ops (fun x => x) (fun x => x) tleb G w K = Some (lo, u) ->
+    u = lo
+    /\ (forall X xi, In X (nonterminals G) -> In xi (all_assts (lshape G X)) ->
+                     step trop_ops G w (env_of trop_ops lo) X xi = env_of trop_ops lo X xi)
+    /\ (forall v : env (R:=trop),
+          (forall X xi, In X (nonterminals G) -> In xi (all_assts (lshape G X)) -> tle (step trop_ops G w v X xi) (v X xi)) ->
+          forall X xi, In X (nonterminals G) -> In xi (all_assts (lshape G X)) -> tle (env_of trop_ops lo X xi) (v X xi))
+    /\ (forall k X xi, In X (nonterminals G) -> In xi (all_assts (lshape G X)) ->
+                       tle (Zk trop_ops G w k X xi) (env_of trop_ops lo X xi))
+    /\ (exists j, j <= K /\ forall X xi, In X (nonterminals G) -> In xi (all_assts (lshape G X)) ->
+                                         env_of trop_ops lo X xi = Zk trop_ops G w (4 * j) X xi).
+Proof. exact enclosure_trop_exact. Qed.
+Print Assumptions C02_trop_exact.
+
+(** Real / Log (the instance used by [fp_check_real]) *)
+Theorem C02_real_enclosure_sound :
+  sr_ring ereal_ops -> sr_ordered ereal_ops ->
+  forall G w K lo u,
+    wf_grammar G = true ->
+    enclosure ereal_ops rd_real infl_real eleb G w K = Some (lo, u) ->
+    (forall k X xi, In X (nonterminals G) -> In xi (all_assts (lshape G X)) ->
+                    ele (Zk ereal_ops G w k X xi) (env_of ereal_ops u X xi))
+    /\ (exists j, j <= K /\ lo = Ktab ereal_ops rd_real G w (4 * j)
+                  /\ forall X xi, In X (nonterminals G) -> In xi (all_assts (lshape G X)) ->
+                                  ele (env_of ereal_ops lo X xi) (Zk ereal_ops G w (4 * j) X xi))
+    /\ (forall v : env (R:=ereal),
+          (forall X xi, In X (nonterminals G) -> In xi (all_assts (lshape G X)) -> ele (step ereal_ops G w v X xi) (v X xi)) ->
+          forall X xi, In X (nonterminals G) -> In xi (all_assts (lshape G X)) -> ele (env_of ereal_ops lo X xi) (v X xi))
+    /\ (forall X xi, In X (nonterminals G) -> In xi (all_assts (lshape G X)) ->
+                     ele (env_of ereal_ops lo X xi) (env_of ereal_ops u X xi))
+    /\ (forall X xi, In X (nonterminals G) -> In xi (all_assts (lshape G X)) ->
+                     ele (step ereal_ops G w (env_of ereal_ops u) X xi) (env_of ereal_ops u X xi)).
+Proof. exact enclosure_real_sound. Qed.
+Print Assumptions C02_real_enclosure_sound.
+
+(** the instance-specific side conditions *)
+Theorem C02_rd_real_le : forall x, ele (rd_real x) x.
+Proof. exact rd_real_le. Qed.
+Print Assumptions C02_rd_real_le.
+
+Theorem C02_eleb_sound : forall x y, eleb x y = true -> ele x y.
+Proof. exact eleb_sound. Qed.
+Print Assumptions C02_eleb_sound.
+
+Theorem C02_tleb_sound : forall x y, tleb x y = true -> tle x y.
+Proof. exact tleb_sound. Qed.
+Print Assumptions C02_tleb_sound.
+
+(** * 4. control flow *)
+(** ValueError is expected exactly for method="linear" (tag 2) when some component of the
+    evaluation order is not one-step and has a rule with two or more component edges *)
+Theorem C02_expect_value_error_iff :
+  forall G meth order,
+    expect_value_error G meth order = true <->
+    meth = 2 /\ exists comp, In comp order
+      /\ ~ (length comp = 1 /\ max_rhs G comp = 0)
+      /\ exists n r, In n comp /\ In r (rules_of G n)
+                     /\ 2 <= length (filter (fun ed => mem comp (fst ed)) (r_edges r)).
+Proof. exact expect_value_error_iff. Qed.
+Print Assumptions C02_expect_value_error_iff.
+
+(** [max_rhs] is what its name says *)
+Theorem C02_max_rhs_spec :
+  forall G comp,
+    (forall n r, In n comp -> In r (rules_of G n) ->
+                 length (filter (fun ed => mem comp (fst ed)) (r_edges r)) <= max_rhs G comp)
+    /\ forall b, (forall n r, In n comp -> In r (rules_of G n) ->
+                              length (filter (fun ed => mem comp (fst ed)) (r_edges r)) <= b) ->
+                 max_rhs G comp <= b.
+Proof. exact (fun G comp => conj (max_rhs_ge G comp) (max_rhs_le G comp)). Qed.
+Print Assumptions C02_max_rhs_spec.
+
+(** method="newton" is downgraded to "linear" only where that cannot raise *)
+Theorem C02_newton_downgrade_never_raises :
+  forall G comp, comp_method G 1 comp = 2 -> linear_raises G comp = false.
+Proof. exact newton_downgrade_never_raises. Qed.
+Print Assumptions C02_newton_downgrade_never_raises.
+
+(** fixed_point's loop: the fuel suffices; it warns iff the first kmax+1 stopping tests all
+    fail; if it does not warn, the returned consecutive iterates pass the stopping test *)
+Theorem C02_fixed_point_loop_total :
+  forall A (F : A -> A) close kmax x, exists r, fixed_point_loop F close kmax x = Some r.
+Proof. exact (@fixed_point_loop_total). Qed.
+Print Assumptions C02_fixed_point_loop_total.
+
+Theorem C02_fixed_point_warns_iff :
+  forall A (F : A -> A) close kmax x y0 y1 warned,
+    fixed_point_loop F close kmax x = Some (y0, y1, warned) ->
+    (warned = true <-> forall i, i <= kmax -> close (iter i F x) (iter (S i) F x) = false).
+Proof. exact (@fixed_point_loop_warns_iff). Qed.
+Print Assumptions C02_fixed_point_warns_iff.
+
+Theorem C02_fixed_point_quiet :
+  forall A (F : A -> A) close kmax x y0 y1,
+    fixed_point_loop F close kmax x = Some (y0, y1, false) ->
+    close y0 y1 = true /\ y1 = F y0 /\ exists k, k <= kmax /\ y0 = iter k F x.
+Proof. exact (@fixed_point_loop_quiet). Qed.
+Print Assumptions C02_fixed_point_quiet.
+
+(** newton's loop after the F3 repair warns iff no iteration's stop test succeeded *)
+Theorem C02_newton_warns_iff :
+  forall A (body : A -> A * bool) kmax x,
+    snd (newton_loop body kmax x) = true <->
+    forall i, i < kmax -> snd (body (iter i (fun y => fst (body y)) x)) = false.
+Proof. exact (@newton_loop_warns_iff). Qed.
+Print Assumptions C02_newton_warns_iff.
+
+Theorem C02_newton_quiet :
+  forall A (body : A -> A * bool) kmax x,
+    snd (newton_loop body kmax x) = false ->
+    exists i, i < kmax /\ nstop body x i = true /\ (forall j, j < i -> nstop body x j = false)
+              /\ fst (newton_loop body kmax x) = nstate body x (S i).
+Proof. exact (@newton_loop_quiet). Qed.
+Print Assumptions C02_newton_quiet.
+
+(** F3: the loop shape before the repair (`if k > kmax` after `for k in range(kmax)`) can never
+    warn, and computes the same state *)
+Theorem C02_newton_old_never_warns :
+  forall A (body : A -> A * bool) kmax x, snd (newton_loop_old body kmax x) <> Some true.
+Proof. exact (@newton_old_never_warns). Qed.
+Print Assumptions C02_newton_old_never_warns.
+
+(** witness: budget 1, a body that never stops -- the repaired loop warns, the old one is silent *)
+Theorem C02_newton_old_silent_witness :
+  snd (newton_loop (fun n : nat => (S n, false)) 1 0) = true
+  /\ snd (newton_loop_old (fun n : nat => (S n, false)) 1 0) = Some false
+  /\ fst (newton_loop_old (fun n : nat => (S n, false)) 1 0) = fst (newton_loop (fun n : nat => (S n, false)) 1 0).
+Proof. exact newton_old_silent_witness. Qed.
+Print Assumptions C02_newton_old_silent_witness.
+
+Theorem C02_newton_old_same_state :
+  forall A (body : A -> A * bool) kmax x, fst (newton_loop_old body kmax x) = fst (newton_loop body kmax x).
+Proof. exact (@newton_old_same_state). Qed.
+Print Assumptions C02_newton_old_same_state.
+
+(** * 5. linear recursion *)
+(** [linear] raises exactly when some rule of the component has >= 2 component edges,
+    i.e. when [max_rhs] exceeds 1 *)
+Theorem C02_linear_raises_iff :
+  forall G comp, linear_raises G comp = true <-> 2 <= max_rhs G comp.
+Proof. exact linear_raises_max_rhs. Qed.
+Print Assumptions C02_linear_raises_iff.
+
+(** otherwise the component's equations are affine,  F x = J0 . x + F0,  with F0 and J0 as
+    computed by [linear] (definitions [lin_F0], [lin_J0] in Proofs/Kleene_linear.v:
+    J0[n, m][xi, eta] = sum over the rules of n whose single component edge is labelled m of
+    the sum-product of the rule's OTHER edges with external nodes ext ++ that edge's nodes, at
+    xi ++ eta; F0[n][xi] = sum over the rules of n without component edge of their sum-product;
+    [inp] gives the values of the nonterminals outside the component).  Only the
+    commutative-semiring laws are needed. *)
+Theorem C02_linear_affine :
+  forall R (o : sr_ops R), sr_ring o ->
+  forall G (w inp : env (R:=R)) comp,
+    wf_grammar G = true -> (forall m, In m comp -> is_term G m = false) ->
+  forall (x : env (R:=R)) n xi,
+    NoDup comp -> max_rhs G comp <= 1 -> In n comp -> In xi (all_assts (lshape G n)) ->
+    step o G w (fun l => if mem comp l then x l else inp l) n xi
+    = add o (sumS o comp (fun m => sumS o (all_assts (lshape G m))
+                                        (fun eta => mul o (lin_J0 o G w inp comp n m xi eta) (x m eta))))
+            (lin_F0 o G w inp comp n xi).
+Proof. exact (@step_linear_affine). Qed.
+Print Assumptions C02_linear_affine.
+
+(** one rule with exactly one component edge [ed]: leave-that-edge-out product *)
+Theorem C02_rule_affine :
+  forall R (o : sr_ops R), sr_ring o ->
+  forall G (w inp : env (R:=R)) comp, (forall m, In m comp -> is_term G m = false) ->
+  forall r ed (x : env (R:=R)) xi,
+    wf_rule G r = true -> filter (fun e => mem comp (fst e)) (r_edges r) = [ed] ->
+    length xi = length (r_ext r) ->
+    rule_val o G (fun l => if is_term G l then w l else if mem comp l then x l else inp l) r xi
+    = sumS o (all_assts (lshape G (fst ed)))
+             (fun eta => mul o (rule_val o G (fun l => if is_term G l then w l else inp l)
+                                         {| r_lhs := r_lhs r; r_nodes := r_nodes r;
+                                            r_edges := filter (fun e => negb (mem comp (fst e))) (r_edges r);
+                                            r_ext := r_ext r ++ snd ed |} (xi ++ eta))
+                               (x (fst ed) eta)).
+Proof. exact (@rule_val_affine). Qed.
+Print Assumptions C02_rule_affine.
+
+(** * 6. the loop of fixed_point on the grammar's equations; what the check's verdict 0 means *)
+(** [env_le_on o G x y] / [env_eq_on G x y] (Proofs/SP_mono.v): x <= y / x = y at every
+    nonterminal X of G and every in-range index tuple xi, i.e.
+    [forall X xi, In X (nonterminals G) -> In xi (all_assts (lshape G X)) -> le o (x X xi) (y X xi)]. *)
+
+(** a Kleene iterate that is a fixed point is the least fixed point *)
+Theorem C02_Zk_fixed_is_least :
+  forall R (o : sr_ops R), sr_ring o -> sr_ordered o ->
+  forall G w k, wf_grammar G = true ->
+    env_eq_on G (Zk o G w k) (Zk o G w (S k)) ->
+    env_eq_on G (step o G w (Zk o G w k)) (Zk o G w k)
+    /\ (forall v : env (R:=R), env_le_on o G (step o G w v) v -> env_le_on o G (Zk o G w k) v)
+    /\ (forall j, env_le_on o G (Zk o G w j) (Zk o G w k)).
+Proof. exact (@Zk_fixed_is_least). Qed.
+Print Assumptions C02_Zk_fixed_is_least.
+
+(** fixed_point's loop run on [step o G w] from zero with an exact stopping test: if it does
+    not warn, it returns the least fixed point (Bool; integer-weight Viterbi) *)
+Theorem C02_fixed_point_quiet_is_lfp :
+  forall R (o : sr_ops R), sr_ring o -> sr_ordered o ->
+  forall G w (close : env (R:=R) -> env (R:=R) -> bool) kmax y0 y1,
+    wf_grammar G = true ->
+    (forall x y, close x y = true -> env_eq_on G x y) ->
+    fixed_point_loop (step o G w) close kmax (zero_env o) = Some (y0, y1, false) ->
+    exists k, k <= kmax /\ y0 = Zk o G w k /\ y1 = Zk o G w (S k)
+      /\ env_eq_on G (step o G w y0) y0
+      /\ (forall v : env (R:=R), env_le_on o G (step o G w v) v -> env_le_on o G y0 v)
+      /\ (forall j, env_le_on o G (Zk o G w j) y0).
+Proof. exact (@fixed_point_quiet_is_lfp). Qed.
+Print Assumptions C02_fixed_point_quiet_is_lfp.
+
+(** whether or not it warns, what it returns is below every pre-fixed point *)
+Theorem C02_fixed_point_result_below_prefix :
+  forall R (o : sr_ops R), sr_ring o -> sr_ordered o ->
+  forall G w (close : env (R:=R) -> env (R:=R) -> bool) kmax y0 y1 warned,
+    wf_grammar G = true ->
+    fixed_point_loop (step o G w) close kmax (zero_env o) = Some (y0, y1, warned) ->
+    forall v : env (R:=R), env_le_on o G (step o G w v) v -> env_le_on o G y0 v /\ env_le_on o G y1 v.
+Proof. exact (@fixed_point_result_below_prefix). Qed.
+Print Assumptions C02_fixed_point_result_below_prefix.
+
+(** SCC decomposition ([is_lfp_on o G S F mu]: F mu = mu at the in-range tuples of the labels in
+    S, and mu is below every v with F v <= v there; [comp_step o G w inp comp x] = step with x on
+    the component and inp elsewhere; [deps_in G comp earlier]: every nonterminal on a right-hand
+    side of the component is in comp or in earlier -- Proofs/Kleene_scc.v).  Solving a component
+    exactly, given exact values of what it depends on, yields the global least fixed point there *)
+Theorem C02_scc_component_exact :
+  forall R (o : sr_ops R), sr_ring o -> sr_ordered o ->
+  forall G w, wf_grammar G = true ->
+  forall (mu inp nu : env (R:=R)) comp earlier,
+    is_lfp_on o G (nonterminals G) (step o G w) mu ->
+    (forall n, In n comp -> In n (nonterminals G)) ->
+    deps_in G comp earlier ->
+    (forall X xi, In X earlier -> In xi (all_assts (lshape G X)) -> inp X xi = mu X xi) ->
+    is_lfp_on o G comp (comp_step o G w inp comp) nu ->
+    forall X xi, In X comp -> In xi (all_assts (lshape G X)) -> nu X xi = mu X xi.
+Proof. exact (@scc_component_exact). Qed.
+Print Assumptions C02_scc_component_exact.
+
+(** ... hence the driver (components in dependency order, each solved exactly with the earlier
+    results as inputs: [exact_run], [dep_ordered]) computes the global least fixed point *)
+Theorem C02_scc_decomposition :
+  forall R (o : sr_ops R), sr_ring o -> sr_ordered o ->
+  forall G w, wf_grammar G = true ->
+  forall (mu : env (R:=R)) order acc final,
+    is_lfp_on o G (nonterminals G) (step o G w) mu ->
+    exact_run o G w order acc final -> dep_ordered G [] order ->
+    (forall X, In X (nonterminals G) -> In X (concat order)) ->
+    forall X xi, In X (nonterminals G) -> In xi (all_assts (lshape G X)) -> final X xi = mu X xi.
+Proof. exact (@scc_decomposition_all). Qed.
+Print Assumptions C02_scc_decomposition.
+
+(** Bool: the Kleene chain is stationary after at most N = number of Boolean cells steps ... *)
+Theorem C02_bool_chain_stabilises :
+  forall G (w : env (R:=bool)),
+    exists k, k <= length (flat_map (fun X => map (pair X) (all_assts (lshape G X))) (nonterminals G))
+              /\ env_eq_on G (Zk bool_ops G w k) (Zk bool_ops G w (S k)).
+Proof. exact bool_chain_stabilises. Qed.
+Print Assumptions C02_bool_chain_stabilises.
+
+(** ... so with an exact stopping test and kmax >= N, fixed_point's loop does not warn and
+    returns the least fixed point (DESIGN C02_bool_exact) *)
+Theorem C02_bool_fixed_point_exact :
+  forall G (w : env (R:=bool)), wf_grammar G = true ->
+  forall (close : env (R:=bool) -> env (R:=bool) -> bool) kmax,
+    (forall x y, close x y = true <-> env_eq_on G x y) ->
+    length (flat_map (fun X => map (pair X) (all_assts (lshape G X))) (nonterminals G)) <= kmax ->
+    exists y0 y1 k,
+      fixed_point_loop (step bool_ops G w) close kmax (zero_env bool_ops) = Some (y0, y1, false)
+      /\ k <= length (flat_map (fun X => map (pair X) (all_assts (lshape G X))) (nonterminals G))
+      /\ y0 = Zk bool_ops G w k
+      /\ env_eq_on G (step bool_ops G w y0) y0
+      /\ (forall v : env (R:=bool), env_le_on bool_ops G (step bool_ops G w v) v -> env_le_on bool_ops G y0 v).
+Proof. exact bool_fixed_point_exact. Qed.
+Print Assumptions C02_bool_fixed_point_exact.
+
+(** verdict 0 of the Boolean check on a run whose values are judged: the implementation
+    returned, for every nonterminal and cell, exactly the least fixed point *)
+Theorem C02_fp_check_bool_sound :
+  forall gw ws meth kmax tol K warned obs,
+    fp_check_bool (gw, ws, (meth, kmax, tol), K, (false, warned, true, obs)) = 0 ->
+    let G := grammar_of_w gw in
+    let w := env_of bool_ops (weights_tmt (fun b : bool => b) G ws) in
+    exists mu : env (R:=bool),
+      env_eq_on G (step bool_ops G w mu) mu
+      /\ (forall v : env (R:=bool), env_le_on bool_ops G (step bool_ops G w v) v -> env_le_on bool_ops G mu v)
+      /\ (exists k, env_eq_on G mu (Zk bool_ops G w k))
+      /\ forall X, In X (nonterminals G) ->
+           exists ob, obs_get obs X = Some ob /\ ob = map (mu X) (all_assts (lshape G X)).
+Proof. exact fp_check_bool_sound. Qed.
+Print Assumptions C02_fp_check_bool_sound.
+
+(** Viterbi: the least fixed point lies inside every observed interval *)
+Theorem C02_fp_check_trop_sound :
+  forall gw ws meth kmax tol K warned obs,
+    sr_ring trop_ops -> sr_ordered trop_ops ->
+    fp_check_trop (gw, ws, (meth, kmax, tol), K, (false, warned, true, obs)) = 0 ->
+    let G := grammar_of_w gw in
+    let w := env_of trop_ops (weights_tmt trop_of G ws) in
+    exists mu : env (R:=trop),
+      env_eq_on G (step trop_ops G w mu) mu
+      /\ (forall v : env (R:=trop), env_le_on trop_ops G (step trop_ops G w v) v -> env_le_on trop_ops G mu v)
+      /\ (exists k, env_eq_on G mu (Zk trop_ops G w k))
+      /\ forall X, In X (nonterminals G) ->
+           exists ob, obs_get obs X = Some ob
+             /\ length ob = length (all_assts (lshape G X))
+             /\ forall i xi b, nth_error (all_assts (lshape G X)) i = Some xi -> nth_error ob i = Some b ->
+                               tle (trop_of (fst b)) (mu X xi) /\ tle (mu X xi) (trop_of (snd b)).
+Proof. exact fp_check_trop_sound. Qed.
+Print Assumptions C02_fp_check_trop_sound.
+
+(** Real / Log: every observed interval meets a certified enclosure [lo, u] of the least fixed point *)
+Theorem C02_fp_check_real_sound :
+  forall gw ws meth kmax tol K warned obs,
+    sr_ring ereal_ops -> sr_ordered ereal_ops ->
+    fp_check_real (gw, ws, (meth, kmax, tol), K, (false, warned, true, obs)) = 0 ->
+    let G := grammar_of_w gw in
+    let w := env_of ereal_ops (weights_tmt ereal_of G ws) in
+    exists lo u : env (R:=ereal),
+      (forall k, env_le_on ereal_ops G (Zk ereal_ops G w k) u)
+      /\ env_le_on ereal_ops G (step ereal_ops G w u) u
+      /\ (exists k, env_le_on ereal_ops G lo (Zk ereal_ops G w k))
+      /\ (forall v : env (R:=ereal), env_le_on ereal_ops G (step ereal_ops G w v) v -> env_le_on ereal_ops G lo v)
+      /\ forall X, In X (nonterminals G) ->
+           exists ob, obs_get obs X = Some ob
+             /\ length ob = length (all_assts (lshape G X))
+             /\ forall i xi b, nth_error (all_assts (lshape G X)) i = Some xi -> nth_error ob i = Some b ->
+                               compat_real (lo X xi) (u X xi) b = true.
+Proof. exact fp_check_real_sound. Qed.
+Print Assumptions C02_fp_check_real_sound.
+
+(** verdict 0 also means: ValueError was raised iff expected, and a provable budget
+    exhaustion ([must_warn]) came with a warning *)
+Theorem C02_fp_check_control :
+  forall R W B (o : sr_ops R) rd infl leb far (of_wire : W -> R) (compat : R -> R -> B -> bool)
+         gw ws meth kmax tol K raised warned chkvals obs,
+    fp_check o rd infl leb far of_wire compat (gw, ws, (meth, kmax, tol), K, (raised, warned, chkvals, obs)) = 0 ->
+    let G := grammar_of_w gw in
+    wf_grammar G = true
+    /\ exists order, scc (nt_graph G) = Some order
+         /\ raised = expect_value_error G meth order
+         /\ (raised = false -> must_warn o far tol G meth kmax order (weights_tmt of_wire G ws) = true -> warned = true).
+Proof. exact (@fp_check_zero_control). Qed.
+Print Assumptions C02_fp_check_control.
